@@ -802,6 +802,27 @@ fn process_fn(
         lv.visit_block_mut(block);
         out.rewrites.extend(lv.log);
     }
+    // R19: argument-position `impl Trait` -> named generic parameter (so that contracts can name the type)
+    {
+        let mut k = 0usize;
+        let mut new_params: Vec<syn::GenericParam> = vec![];
+        for arg in sig.inputs.iter_mut() {
+            if let syn::FnArg::Typed(pt) = arg {
+                if let syn::Type::ImplTrait(it) = &*pt.ty {
+                    let id = syn::Ident::new(&format!("VxI{}", k), proc_macro2::Span::call_site());
+                    k += 1;
+                    let bounds = &it.bounds;
+                    new_params.push(parse_quote!(#id: #bounds));
+                    let line = line_of(&*pt.ty);
+                    out.rewrites.push(RewriteLog { rule: "R19".into(), line, detail: format!("argument `impl {}` -> generic {}", norm(&bounds.to_token_stream()), id) });
+                    pt.ty = Box::new(parse_quote!(#id));
+                }
+            }
+        }
+        for p in new_params {
+            sig.generics.params.push(p);
+        }
+    }
     // R10
     if spec.self_mut {
         if let Some(syn::FnArg::Receiver(r)) = sig.inputs.first_mut() {
